@@ -2,9 +2,9 @@
 # usage: verify_seeded.sh <worktree> <outdir> <property>   -- confirm a seeded change (demo both ways, test-suite), then run the check on it
 WT=$1; OUT=$2; PROP=$3
 cd $WT || exit 2
-echo "== demo on modified tree"; /venv/bin/python $OUT/demo.py 2>&1 | tail -3; echo "exit=$?"
+echo "== demo on modified tree"; PYTHONPATH=$WT /venv/bin/python $OUT/demo.py > /tmp/demo.out 2>&1; echo "exit=$?"; tail -3 /tmp/demo.out
 git apply -R $OUT/patch.diff
-echo "== demo on unmodified tree"; /venv/bin/python $OUT/demo.py 2>&1 | tail -3; echo "exit=$?"
+echo "== demo on unmodified tree"; PYTHONPATH=$WT /venv/bin/python $OUT/demo.py > /tmp/demo.out 2>&1; echo "exit=$?"; tail -3 /tmp/demo.out
 git apply $OUT/patch.diff
 echo "== test-suite on modified tree"
 /venv/bin/python -m pytest -q -p no:cacheprovider --timeout=900 --continue-on-collection-errors 2>&1 | tail -1
